@@ -476,7 +476,8 @@ func (e *Engine) genVC(key string) (res *FuncResult) {
 			case specError:
 				res.Err = "contract-error: " + v.msg
 			default:
-				panic(r)
+				// a construct the executor does not handle must never look like a pass or a violation
+				res.Err = fmt.Sprintf("outside-subset: internal error of the VC generator: %v", r)
 			}
 		}
 		for k := range x.trusted {
